@@ -560,8 +560,11 @@ def run(name, n, seed):
         r = json.load(open(out))
         c = collections.Counter()
         for k, v in r["distribution"].items():
-            if k.startswith("VIOLATION:"):
+            if k.startswith("VIOLATION:") and not k.startswith("VIOLATION/"):
                 c[k[10:]] += v
+        c04 = sorted(k.split("/", 2)[2] for k in r["distribution"] if k.startswith("VIOLATION/C04/"))
+        if c04:
+            c["C04 by mode"] = c04
         verdict = "CAUGHT" if r["n_violations"] else "MISSED"
         print("%-5s %-6s cases=%d violations=%d %s  -- %s" % (name, verdict, r["evaluations"], r["n_violations"], dict(c), what), flush=True)
         return r["n_violations"] > 0
